@@ -17,7 +17,10 @@ Abs(x) == IF x < 0 THEN -x ELSE x
 SamePhase(a, b) == (a - b) % K = 0
 TInit == /\ TLCSet(1, {}) /\ TLCSet(2, {}) /\ tid \in 1..Len(Traces) /\ l = 0 /\ rej = <<>>
          /\ K = Traces[tid].K /\ m = Traces[tid].m /\ left = Traces[tid].init.l /\ right = Traces[tid].init.r /\ steps = 0
-HeightOK(h, p) == Abs(h * K * K * K - G!HNum(p) * 10000) <= 2 * K * K * K
+\* tolerance in 1e-4 of the swing height: 2, or what the event carries (the float32 phase has drifted by a logged fraction of a
+\* tick along the history, and the Bezier curve has slope 3/K per tick)
+HeightOK(h, p, tol) == Abs(h * K * K * K - G!HNum(p) * 10000) <= tol * K * K * K
+HTol(ev) == IF "htol" \in DOMAIN ev THEN ev.htol ELSE 2
 Clauses(ev) ==
   [PhaseAdvancesByTwoPiFrequencyDt |-> ev.on_grid /\ SamePhase(ev.l, G!Advance(left)) /\ SamePhase(ev.r, G!Advance(right)),
    PhasesStayWithinMinusPiPi       |-> ev.l \in (-G!Half)..G!Half /\ ev.r \in (-G!Half)..G!Half,
@@ -26,7 +29,7 @@ Clauses(ev) ==
    \* failed and HNum of an arbitrary logged integer would overflow TLC's 32-bit arithmetic); the [0, swing] bound always is
    FootHeightFollowsBezierWithinSwing |-> /\ ev.hl >= -2 /\ ev.hl <= 10002 /\ ev.hr >= -2 /\ ev.hr <= 10002
                                           /\ (ev.l \in (-G!Half)..G!Half /\ ev.r \in (-G!Half)..G!Half)
-                                               => (HeightOK(ev.hl, ev.l) /\ HeightOK(ev.hr, ev.r))]
+                                               => (HeightOK(ev.hl, ev.l, HTol(ev)) /\ HeightOK(ev.hr, ev.r, HTol(ev)))]
 FailedAt(i) == IF i = 0 THEN {n \in DOMAIN Traces[tid].atoms : ~Traces[tid].atoms[n]}
                ELSE LET c == Clauses(Tr[i]) IN {n \in DOMAIN c : ~c[n]}
 TStep == /\ l >= 0 /\ l <= Len(Tr) /\ FailedAt(l) = {}
